@@ -398,6 +398,27 @@ func (in *Interp) registerReflectIntrinsics() {
 			in.store(v.Addr, nv)
 			return nil
 		}
+		r[valRecv+".Convert"] = func(in *Interp, fr *frame, args []Value) Value {
+			v := in.rv(args[0])
+			t := in.rt(args[1]).T
+			if !types.ConvertibleTo(v.T, t) {
+				panic(in.reflectPanic("reflect.Value.Convert: value of type " + in.rtypeString(v.T) + " cannot be converted to type " + in.rtypeString(t)))
+			}
+			if _, isIface := t.Underlying().(*types.Interface); isIface {
+				if _, srcIface := v.T.Underlying().(*types.Interface); srcIface {
+					return RValue{T: t, V: v.V, Valid: true, Lite: lite}
+				}
+				return RValue{T: t, V: Iface{T: v.T, V: v.V}, Valid: true, Lite: lite}
+			}
+			// same representation (identical underlying types, pointer/struct/string kinds)
+			if types.Identical(v.T.Underlying(), t.Underlying()) || reflectKind(v.T) == reflectKind(t) && (reflectKind(t) == kPointer || reflectKind(t) == kStruct || reflectKind(t) == kString) {
+				return RValue{T: in.canonType(t), V: in.copyVal(v.V), Valid: true, Lite: lite}
+			}
+			panic(in.abort("unsupported", "reflect.Value.Convert "+in.rtypeString(v.T)+" -> "+in.rtypeString(t)))
+		}
+		r[valRecv+".CanConvert"] = func(in *Interp, fr *frame, args []Value) Value {
+			return in.tf.Bool(types.ConvertibleTo(in.rv(args[0]).T, in.rt(args[1]).T))
+		}
 		r[valRecv+".CanSet"] = func(in *Interp, fr *frame, args []Value) Value {
 			v := in.rv(args[0])
 			return in.tf.Bool(v.Addr != nil && !v.RO)
